@@ -66,6 +66,7 @@ func (e *Exec) runBlocks(fr *frame) Val {
 				fr.regs[b.Instrs[i].Res] = vals[i]
 			}
 		}
+		e.curBlock = b.Name
 		e.steps += int64(len(b.Instrs))
 		if e.steps > e.cfg.MaxSteps {
 			e.end("steps", "step budget %d exceeded in %s", e.cfg.MaxSteps, e.stack())
